@@ -62,7 +62,7 @@ def run(ctx):
         lits = sorted(i for i in ints if 0 < i < 2 ** 31)
         files = []
         wv = battle.wows_versions()
-        picks = wv if not q else [wv[i] for i in range(0, len(wv), 9)]
+        picks = wv if not q else battle.representative_versions(9)[::2]
         chunks = [lits[i::len(picks)] for i in range(len(picks))]
         for v, ids in zip(picks, chunks):
             p = os.path.join(tmp, 'w-%s.wowsreplay' % v)
